@@ -8,6 +8,7 @@ CONSTANTS
   Ticks = TRUE
   Beh = FALSE
   Mut = "keepShared"
+  AddEv = TRUE
 CHECK_DEADLOCK FALSE
 VIEW View
 PROPERTIES C18_FreshAfterRestart
